@@ -438,3 +438,77 @@ func TestC15_FirstCallOrders(t *testing.T) {
 	perm("", "LKFN")
 	c15Order.rec().Exhaustive()
 }
+
+// ---------------------------------------------------------------------------
+// The advertised list belongs to the registry, not to whoever asked for it last: callers filter, sort, re-case and
+// overwrite the slice they were given. Whatever they do to it, the next ListSuites advertises the same names, each known
+// and instantiable.
+
+type c15ListCase struct {
+	Mutation string `json:"mutation"`
+}
+
+func checkC15List(c c15ListCase) verdict {
+	base := append([]string(nil), registeredNames...)
+	got := otp.ListSuites()
+	switch c.Mutation {
+	case "overwrite":
+		for i := range got {
+			got[i] = "x"
+		}
+	case "filter-in-place":
+		kept := got[:0]
+		for _, n := range got {
+			if strings.Contains(n, "SHA512") {
+				kept = append(kept, n)
+			}
+		}
+	case "lower-case":
+		for i := range got {
+			got[i] = strings.ToLower(got[i])
+		}
+	case "reverse":
+		for i, j := 0, len(got)-1; i < j; i, j = i+1, j-1 {
+			got[i], got[j] = got[j], got[i]
+		}
+	case "append-within-capacity":
+		if cap(got) > len(got) {
+			_ = append(got, "OCRA-1:HOTP-SHA1-6:QN08-EXTRA")
+		}
+		_ = append(got[:len(got)/2], "OCRA-1:HOTP-SHA1-6:QN08-OVERWRITE")
+	case "truncate":
+		got = got[:1]
+		_ = got
+	}
+	again := otp.ListSuites()
+	sortStrings(again)
+	if len(again) != len(base) {
+		return bad(true, []string{"mutation=" + c.Mutation}, "after a caller did %q to the slice ListSuites had returned, ListSuites advertises %d names (was %d)", c.Mutation, len(again), len(base))
+	}
+	for i := range base {
+		if again[i] != base[i] {
+			return bad(true, []string{"mutation=" + c.Mutation}, "after a caller did %q to the slice ListSuites had returned, ListSuites advertises %q where it advertised %q", c.Mutation, again[i], base[i])
+		}
+		if !otp.IsKnownSuite(again[i]) {
+			return bad(true, []string{"mutation=" + c.Mutation}, "advertised name %q is not known", again[i])
+		}
+		if _, err := otp.NewRawSuite(again[i]); err != nil {
+			return bad(true, []string{"mutation=" + c.Mutation}, "advertised name %q cannot be instantiated: %v", again[i], err)
+		}
+	}
+	return ok(true, "mutation="+c.Mutation)
+}
+
+var c15List = newPart("C15", "list-callers",
+	"complete: six things a caller does to the slice ListSuites returned (overwrite every entry, filter in place, lower-case in place, reverse, append within and over the length, truncate), each followed by a fresh ListSuites; oracle: the same 45 names as at start-up, each known to IsKnownSuite and instantiable; every case distinct and non-trivial",
+	checkC15List)
+
+func TestC15_ListCallers(t *testing.T) {
+	defer c15List.rec().Flush()
+	for i, m := range []string{"overwrite", "filter-in-place", "lower-case", "reverse", "append-within-capacity", "truncate"} {
+		if ev.Mine(i) {
+			c15List.each(t, c15ListCase{Mutation: m})
+		}
+	}
+	c15List.rec().Exhaustive()
+}
